@@ -175,7 +175,12 @@ class Builder(NullCell):
         if isinstance(address, str):
             address = Address(address)
 
-        self.store_bits('100')  # addr_std$10 + maybe anycast = 0
+        if address.anycast is not None:
+            self.store_bits('101')  # addr_std$10 + just$1 anycast
+            self.store_uint(address.anycast.depth, 5)
+            self.store_uint(address.anycast.rewrite_pfx, address.anycast.depth)
+        else:
+            self.store_bits('100')  # addr_std$10 + maybe anycast = 0
 
         return self.store_int(address.wc, 8).store_bytes(address.hash_part)
 
